@@ -258,7 +258,7 @@ def run(tier, seed):
     H = importlib.import_module("gffutils.helpers")
     known = {k["key"]: k for k in load_known(PROP) if k.get("status") == "known"}
 
-    symx.install(B, ("range",))
+    symx.install(B, ("range", "set"))
     symx.install(I, ("int", "len", "list"))
     symx.install(H, ("int", "len"))
     try:
@@ -392,7 +392,7 @@ def run(tier, seed):
             c.wall_s = time.time() - t0
             rep.add(c)
     finally:
-        symx.uninstall(B, ("range",))
+        symx.uninstall(B, ("range", "set"))
         symx.uninstall(I, ("int", "len", "list"))
         symx.uninstall(H, ("int", "len"))
         symx.reset_tokens()
